@@ -10,7 +10,11 @@ from decimal import Decimal
 
 from coqemit import cZ, cbool, clist, cstr
 
-ENUMS = {"Color": ["RED", "GREEN", "BLUE"], "Mode": ["fast", "slow"], "Lvl": ["A", "B", "C", "D"]}
+ENUMS = {"Color": ["RED", "GREEN", "BLUE"], "Mode": ["fast", "slow"], "Lvl": ["A", "B", "C", "D"],
+         # an IntEnum and a str-mixin Enum, each with a FALSY member: their members are ints / strs, which argparse and the
+         # library's truthiness tests treat differently from plain Enum members (defects repaired by e04e845 / e9c428e)
+         "Pri": ["ZERO", "LOW", "HIGH"], "Tag": ["EMPTY", "A", "B"]}
+ENUM_BASES = {"Pri": ("IntEnum", ["0", "1", "3"]), "Tag": ("str, Enum", ["''", "'a'", "'b'"])}
 
 
 # ---- types ------------------------------------------------------------------------------------------
@@ -36,9 +40,14 @@ def annotation(t) -> str:
     raise ValueError(t)
 
 
-PRELUDE = ("from dataclasses import dataclass, field\nfrom enum import Enum\nfrom pathlib import Path\n"
+def _enum_src(n, ms):
+    base, vals = ENUM_BASES.get(n, ("Enum", [str(i + 1) for i in range(len(ms))]))
+    return f"class {n}({base}):\n" + "".join(f"    {m} = {v}\n" for m, v in zip(ms, vals))
+
+
+PRELUDE = ("from dataclasses import dataclass, field\nfrom enum import Enum, IntEnum\nfrom pathlib import Path\n"
            "from typing import List, Tuple, Optional, Union\nfrom typing_extensions import Literal\n"
-           + "".join(f"class {n}(Enum):\n" + "".join(f"    {m} = {i + 1}\n" for i, m in enumerate(ms)) for n, ms in ENUMS.items()))
+           + "".join(_enum_src(n, ms) for n, ms in ENUMS.items()))
 
 
 def ty_coq(t) -> str:
